@@ -855,9 +855,37 @@ def rule_wagner(repo: Repo, rep: Report) -> int:
     a = assigns(fi, "hard_decisions")
     form(rep, "WAGNER", fi, a[0].value if a else None, ["(received < 0).to(torch.int)", "(received < 0).int()", "(received < 0).long()", "(received < 0).to(torch.long)"], "hard decision: negative LLR -> bit 1", "bit 1 iff the LLR is negative")
     a = assigns(fi, "parity_sums")
-    form(rep, "WAGNER", fi, a[0].value if len(a) == 1 else None, ["hard_decisions.sum(dim=-1) % 2", "hard_decisions.sum(-1) % 2", "torch.sum(hard_decisions, dim=-1) % 2"], "block parity")
     loops = [l for l in fi.body if isinstance(l, ast.For)]
     lp = one([l for l in loops if "parity_sums" in unparse(l.iter)])
+    if len(a) != 1 or lp is None:
+        # unlisted spelling of the parity test: the set of blocks that get a flip must be computed from the hard decisions
+        # themselves (the bits whose parity is repaired), not from the soft values by another route
+        nz = one([l for l in loops if any(isinstance(c, ast.Call) and (call_name(c) or "").split(".")[-1] == "nonzero" for c in ast.walk(l.iter))])
+        if nz is not None:
+            defs_ = {}
+            for s_ in ast.walk(fi.node):
+                if isinstance(s_, ast.Assign) and len(s_.targets) == 1 and isinstance(s_.targets[0], ast.Name):
+                    defs_.setdefault(s_.targets[0].id, []).append(s_.value)
+
+            def roots(e, depth=0):
+                out = set()
+                for x in ast.walk(e):
+                    if isinstance(x, ast.Name):
+                        if x.id in ("hard_decisions", "received"):
+                            out.add(x.id)
+                        elif x.id in defs_ and depth < 5 and x.id not in ("torch",):
+                            for d_ in defs_[x.id]:
+                                out |= roots(d_, depth + 1)
+                return out
+
+            rts = roots(nz.iter)
+            if "received" in rts and "hard_decisions" not in rts:
+                rep.violation("WAGNER", fi, f"blocks that get a flip: for {unparse(nz.target)} in {unparse(nz.iter)[:80]}", "the parity test is computed from the soft values by a second route (sign / product) instead of from the hard decisions that are repaired: the two disagree for a soft value of exactly 0 (sign(0) = 0 makes the product 0, the hard decision is bit 0), so a block with odd hard-decision parity is left uncorrected and the output is not a codeword", node=nz)
+                n += 3
+                lp = None
+                a = []
+                return n
+    form(rep, "WAGNER", fi, a[0].value if len(a) == 1 else None, ["hard_decisions.sum(dim=-1) % 2", "hard_decisions.sum(-1) % 2", "torch.sum(hard_decisions, dim=-1) % 2"], "block parity")
     form(rep, "WAGNER", fi, lp.iter if lp is not None else None, ["torch.nonzero(parity_sums == 1, as_tuple=False)", "torch.nonzero(parity_sums == 1)", "torch.nonzero(parity_sums != 0, as_tuple=False)", "(parity_sums == 1).nonzero()"], "blocks failing the even-parity check", "exactly the odd-parity blocks are corrected")
     n += 3
     if lp is not None:
